@@ -90,6 +90,43 @@ def exact_interval_ok(ws, i, u, tol=1e-12):
 EXPANDING = {2: "\u00dfa", 3: "fu\u00df", 4: "\u01f0azz", 5: "ma\u00dfen"}     # 'ß'.upper() == 'SS', 'ǰ'.upper() == 'J̌'
 
 
+def cli_reproducible(ctx, dist):
+    """random_walk through the real command line, in separate processes with different hash seeds, with and without a session
+    name, with and without flags: identical output; exactly N lines; honeywords mode: exactly N lines."""
+    import os
+    vio = []
+    code = common.copy_code_tree(common.scratch())
+    for i in range(ctx.scale(2, 8)):
+        rs = rulesets.normalise(rulesets.gen_ruleset(ctx.rng, with_markov=False, max_bases=4, max_len=3))
+        name = "W%d" % i
+        rs["name"] = name
+        rulesets.write_ruleset(rs, os.path.join(code, "Rules", name))
+        n = ctx.rng.randint(5, 40)
+        for extra in ([], ["-s", "nightly_%d" % i], ["-s", "A", "--all_lower"]):
+            outs = []
+            for hs in ("0", "101", "20222"):
+                env = common.subenv()
+                env["PYTHONPATH"] = code
+                env["PYTHONHASHSEED"] = hs
+                rc, out, err = common.run_cli([common.PY, "pcfg_guesser.py", "-r", name, "-m", "random_walk", "-n", str(n)] + extra, code, env, 120)
+                outs.append(out.decode("utf-8", "replace").split("\n")[:-1])
+                dist["cli_random_walk_runs"] = dist.get("cli_random_walk_runs", 0) + 1
+            rep = {"ruleset": rs, "n": n, "cli": extra}
+            if any(o != outs[0] for o in outs[1:]):
+                k = next((j for j in range(min(map(len, outs))) if len({o[j] for o in outs}) > 1), -1)
+                vio.append({"sig": "C16:random-walk-not-reproducible", "what": "pcfg_guesser.py -m random_walk -n %d %s gives different output in "
+                            "separate processes (PYTHONHASHSEED 0 / 101 / 20222), first difference at word %d" % (n, " ".join(extra), k), "replay": rep})
+            if len(outs[0]) != n:
+                vio.append({"sig": "C16:count", "what": "pcfg_guesser.py -m random_walk -n %d %s wrote %d lines" % (n, " ".join(extra), len(outs[0])), "replay": rep})
+        env = common.subenv()
+        env["PYTHONPATH"] = code
+        rc, out, err = common.run_cli([common.PY, "pcfg_guesser.py", "-r", name, "-m", "honeywords", "-n", str(n)], code, env, 120)
+        hw = out.decode("utf-8", "replace").split("\n")[:-1]
+        if len(hw) != n:
+            vio.append({"sig": "C16:count", "what": "pcfg_guesser.py -m honeywords -n %d wrote %d lines" % (n, len(hw)), "replay": {"ruleset": rs, "n": n, "cli": ["honeywords"]}})
+    return vio
+
+
 def run(ctx):
     nrs = ctx.scale(60, 500)
     sc = common.scratch()
@@ -326,6 +363,7 @@ def run(ctx):
                "Eval vm_compute in (failing (check_walk walk_fallback_last g) cases)."]
         shards.append(("r%04d" % r, "\n".join(src)))
     corr = []
+    vio += cli_reproducible(ctx, dist)
     for name, idx, log in common.run_case_shards("C16", shards):
         if idx is None:
             corr.append(("walk:" + name, False, log[-800:]))
@@ -336,7 +374,7 @@ def run(ctx):
     rule = ("normalised generated rulesets; random.random()/choice() inside pcfg_grammar replaced by scripted draws: for the base structure "
             "EVERY breakpoint of the float running sum, its two neighbours (nextafter), every midpoint, 0, 5e-324 and 1-2^-53; per position a "
             "draw from the same construction; every walk expanded to its honeyword with scripted value/mask picks and checked against the "
-            "product of its groups computed independently (letters whose upper() expands included); random_walk and honeywords sessions with limit N (count, membership, reproducibility); non-trivial = the draw "
+            "product of its groups computed independently (letters whose upper() expands included); the command line in separate processes (different hash seeds, with / without a session name and flags); random_walk and honeywords sessions with limit N (count, membership, reproducibility); non-trivial = the draw "
             "is exactly a breakpoint or above the float total; distinct by (ruleset, base draw)")
     return {"evaluations": dist["walks"], "distinct_nontrivial": nontrivial, "rule": rule, "samples": samples,
             "corr": corr, "violations": vio, "dist": dist}
